@@ -1,5 +1,79 @@
-(* Props/C01.v — placeholder until BC/CompileProofs.v lands *)
-From Coq Require Import ZArith.
-Require Import X.Sem.Sem.
-Example C01_placeholder : rs0 = rs0.
+(* Props/C01.v — Compiled evaluation conforms to the language definition.
+   Only statements, each closed by `exact`, with Print Assumptions. *)
+From Coq Require Import ZArith Bool List String.
+Require Import X.Base.Num X.Base.Value X.Syn.Ast X.Sem.Prim X.Sem.Sem X.BC.Instr X.BC.Compiler X.BC.VM
+               X.BC.CompileProofs X.BC.RunProofs X.BC.SemFacts.
+Import ListNotations.
+
+(* Main theorem (simulation, any context): for every compilable expression e, every environment,
+   every surrounding code C containing compile e at p, every stack st below, every scope stack
+   matching the closure context, every state r (allocation counter, call trace):
+   - if the reference semantics yields value v and state r', the machine reaches the end of the
+     code of e with exactly v pushed on st, the same scopes, and state r';
+   - if the reference semantics stops with class e, location l, state r', the machine reaches a
+     state whose next step is a crash with exactly that class, location and state. *)
+Theorem C01_compile_correct :
+  forall fe cfg env C e, compilable e = true ->
+  forall ctx scs, ctx_match ctx scs ->
+  forall p, code_at C p (compile (c_mapenv cfg) e) ->
+  forall st r,
+    match eval fe cfg env ctx e r with
+    | Done v r' => star fe cfg env C (mkSt p st scs r) (mkSt (p + csize (compile (c_mapenv cfg) e)) (v :: st) scs r')
+    | Stop er l r' => exists s', star fe cfg env C (mkSt p st scs r) s' /\ step fe cfg env C s' = Crash er l r'
+    end.
+Proof. exact compile_correct. Qed.
+Print Assumptions C01_compile_correct.
+
+(* Executable form: running the compiled program on the model VM returns exactly the result of the
+   reference semantics — value, or failure class + location — with allocation counter and call
+   trace, for every sufficiently large fuel depth. *)
+Theorem C01_run :
+  forall fe cfg env e, compilable e = true ->
+  stop_is_locatable (eval fe cfg env [] e rs0) ->
+  exists d0, forall d, (d0 <= d)%nat ->
+    run_code fe cfg env (compile (c_mapenv cfg) e) d = Some (eval fe cfg env [] e rs0).
+Proof. exact run_compiled. Qed.
+Print Assumptions C01_run.
+
+(* Boolean connectives and conditionals evaluate only the operand they need (statements about the
+   language definition; transferred to compiled code by C01_compile_correct). *)
+Theorem C01_or_short_circuit :
+  forall fe cfg env ctx a op l r s s1, is_or op = true ->
+  eval fe cfg env ctx l s = Done (VBool true) s1 ->
+  eval fe cfg env ctx (EBinary a op l r) s = Done (VBool true) s1.
+Proof. exact eval_or_true. Qed.
+Print Assumptions C01_or_short_circuit.
+
+Theorem C01_and_short_circuit :
+  forall fe cfg env ctx a op l r s s1, is_and op = true ->
+  eval fe cfg env ctx l s = Done (VBool false) s1 ->
+  eval fe cfg env ctx (EBinary a op l r) s = Done (VBool false) s1.
+Proof. exact eval_and_false. Qed.
+Print Assumptions C01_and_short_circuit.
+
+Theorem C01_conditional_one_branch :
+  forall fe cfg env ctx a c x y s b s1,
+  eval fe cfg env ctx c s = Done (VBool b) s1 ->
+  eval fe cfg env ctx (ECond a c x y) s = eval fe cfg env ctx (if b then x else y) s1.
+Proof. exact eval_cond_branch. Qed.
+Print Assumptions C01_conditional_one_branch.
+
+(* every evaluated call of an environment function happens exactly once, after its arguments,
+   which are evaluated left to right: the trace of a successful call node is the trace after the
+   arguments plus exactly one event *)
+Theorem C01_call_once_in_order :
+  forall fe cfg env ctx a name args fast s v s',
+  eval fe cfg env ctx (EFunction a name args fast) s = Done v s' ->
+  exists vs s1 id, evl fe cfg env ctx args s = LDone vs s1 /\
+                   r_trace s' = r_trace s1 ++ [(id, vs)] /\ r_mem s' = r_mem s1.
+Proof. exact eval_function_trace. Qed.
+Print Assumptions C01_call_once_in_order.
+
+Theorem C01_args_left_to_right :
+  forall fe cfg env ctx x rest s,
+  evl fe cfg env ctx (x :: rest) s =
+  match eval fe cfg env ctx x s with
+  | Done v s1 => match evl fe cfg env ctx rest s1 with LDone vs s2 => LDone (v :: vs) s2 | stop => stop end
+  | Stop e l s1 => LStop e l s1
+  end.
 Proof. reflexivity. Qed.
